@@ -136,8 +136,8 @@ def run_episode(rec, root, rng, rules, max_steps, policy, text, hints, steps_scr
 
 def run(rec, cfg):
     rec.accept = {"episode"}
-    rec.alias = {"C01", "C02", "C04", "C06", "C07"}
-    MR.CHECKS.update({"value", "equation", "structure", "print"})
+    rec.alias = {"C01", "C02", "C04", "C05", "C06", "C07"}
+    MR.CHECKS.update({"value", "equation", "structure", "print", "evaluate-after"})
     MR.attach_apply()
     rng = cfg.rng("c09")
     rules = MR.rule_instances()
